@@ -37,7 +37,11 @@ func (s *Slice[T]) Unshift(elements ...T) int {
 	s.mu.Lock()
 	defer s.mu.Unlock()
 
-	s.elements = append(elements, s.elements...)
+	// build a fresh backing array: appending to the caller's slice would write into
+	// (and keep sharing) the caller's storage when it has spare capacity
+	merged := make([]T, 0, len(elements)+len(s.elements))
+	merged = append(merged, elements...)
+	s.elements = append(merged, s.elements...)
 	return len(s.elements)
 }
 
@@ -134,7 +138,11 @@ func (s *Slice[T]) splice(start, deleteCount int, insert ...T) ([]T, error) {
 	removed := make([]T, deleteCount)
 	copy(removed, s.elements[start:start+deleteCount])
 
-	s.elements = append(s.elements[:start], append(insert, s.elements[start+deleteCount:]...)...)
+	// copy insert and tail into a fresh array: appending to insert would write into the
+	// caller's storage when it has spare capacity
+	tail := make([]T, 0, len(insert)+len(s.elements)-start-deleteCount)
+	tail = append(append(tail, insert...), s.elements[start+deleteCount:]...)
+	s.elements = append(s.elements[:start], tail...)
 	return removed, nil
 }
 
